@@ -443,6 +443,14 @@ macro_rules! scripted_layer {
 }
 
 scripted_layer!(LayerV1, V1, |s: &str| V1 { v: s.to_string() });
+/// Metadata with a field TOML cannot hold for some values: a migration to "unwritable..." returns u64::MAX in it.
+#[derive(Serialize, Deserialize, Clone, Debug)]
+struct V3 {
+    v: String,
+    #[serde(default)]
+    big: u64,
+}
+scripted_layer!(LayerV3, V3, |s: &str| V3 { v: s.to_string(), big: if s.starts_with("unwritable") { u64::MAX } else { 0 } });
 scripted_layer!(LayerV2, Typed, |s: &str| Typed { version: s.to_string(), labels: HashMap::new() });
 
 /// A Layer that relies on every default method of the trait.
@@ -817,6 +825,7 @@ pub fn handle(st: &mut State, req: &Value) -> Value {
             let res = match jstr(req, "impl") {
                 "v1" => ctx.handle_layer(name, LayerV1(script)).map(|d| layer_data_json(&d)),
                 "v2" => ctx.handle_layer(name, LayerV2(script)).map(|d| layer_data_json(&d)),
+                "v3" => ctx.handle_layer(name, LayerV3(script)).map(|d| layer_data_json(&d)),
                 "defaults" => ctx.handle_layer(name, DefaultsLayer(script)).map(|d| layer_data_json(&d)),
                 x => panic!("impl {x}"),
             };
